@@ -239,6 +239,10 @@ class Model:
             return ("at", v.attrs["__row_of__"], v.attrs["__frame__"].col(key))
         if isinstance(v, Obj) and "__row_of__" in v.attrs and isinstance(key, str):
             return ("rowattr", v.attrs["__row_of__"], key)
+        # law: [f(x) for x in L][i] == f(L[i])   (an unfiltered list comprehension indexed by position)
+        if isinstance(v, tuple) and len(v) == 5 and v[0] == "comp" and v[1] == "list" and v[4] == T.TRUE and not isinstance(key, (str,)):
+            it, body = v[3], v[2]
+            return T.renorm(T.replace(body, {("elem", it): ("getitem", it, to_term(key))}))
         return ("getitem", to_term(v), to_term(key))
 
     def setitem(self, obj: Any, target: ast.Subscript, v: Any, node) -> None:
@@ -446,6 +450,8 @@ class Model:
             return self.ops.external(callee.name, pos, kw, node)
         if isinstance(callee, tuple) and callee and callee[0] == "attr" and isinstance(callee[1], tuple) and callee[1] and callee[1][0] == "regex":
             return ("re", callee[2], callee[1][1]) + tuple(to_term(x) for x in pos)
+        if isinstance(callee, tuple) and callee and callee[0] == "attr" and len(callee) == 3 and callee[2] == "astype" and pos:
+            return ("astype", to_term(pos[0]), callee[1])          # a cast of an array-valued term
         if isinstance(callee, tuple) and callee and callee[0] == "attr":
             # method on an opaque object
             self.log("opaque-call", node, callee=T.show(callee), args=[to_term(x) for x in pos])
